@@ -152,6 +152,18 @@ def xts_len_classes():
     return ls
 
 
+def pick_xts_len(rng):
+    """stratified: whole-block units below the main loops, short units with stealing, every tail of the by-8/by-16 loops"""
+    r = rng.random()
+    if r < 0.25:
+        return 16 * rng.randrange(1, 10)
+    if r < 0.45:
+        return rng.randrange(16, 160)
+    if r < 0.9:
+        return rng.randrange(144, 16 * 66)
+    return rng.choice([4096, 4096 + 1, 4096 + 7, 4096 + 15, 65536, 65536 + 8])
+
+
 def xts_call(rng, fam, bits, dirn, exp, ln):
     inpl = 1 if rng.random() < 0.3 else 0
     k1b = rng.randrange(2, 1 << 20)
@@ -170,7 +182,7 @@ def xts_jobs(rng, n_per_combo, fams=None, short=True, full=False):
             for dirn in ("enc", "dec"):
                 for exp in (0, 1):
                     name = "xts-%s-%d-%s-%s" % (fam, bits, dirn, "exp" if exp else "raw")
-                    picks = lens if full else [rng.choice(lens) for _ in range(n_per_combo)]
+                    picks = lens if full else [pick_xts_len(rng) for _ in range(n_per_combo)]
                     bs = [[xts_call(rng, fam, bits, dirn, exp, ln)] for ln in picks]
                     if short:
                         bs += [[xts_call(rng, fam, bits, dirn, exp, ln)] for ln in rng.sample(range(0, 16), 3)]
